@@ -818,14 +818,16 @@ func runOnce(c Case, bound time.Duration, vr variant) (v kit.Verdict, slow bool)
 		var out kit.Verdict
 		switch {
 		case s2c && hasContinuedPush(server):
+			// a relay that ends the whole session when one direction fails takes the
+			// other direction down with it: that is a consequence, not a second failure
 			out.Addf(sigPushCont, "server sent PUSH_PROMISE without END_HEADERS followed by CONTINUATION; the server-to-client direction of the relay ended and nothing further was forwarded%s", r.diag())
+		case s2c && c2s:
+			out.Addf("C08/session/both-directions/relay-session-aborted", "the relay ended the session mid-script%s", r.diag())
 		case s2c:
 			out.Addf("C08/session/s2c/relay-direction-aborted", "the server-to-client direction of the relay ended mid-script%s", r.diag())
-		}
-		if c2s {
+		case c2s:
 			out.Addf("C08/session/c2s/relay-direction-aborted", "the client-to-server direction of the relay ended mid-script%s", r.diag())
-		}
-		if !c2s && !s2c {
+		default:
 			out.Addf("C08/session/after-scripts/relay-direction-aborted", "a relay direction ended after both scripts had been forwarded%s", r.diag())
 		}
 		return out, false
@@ -915,7 +917,7 @@ var propScripts = &kit.Prop[Case]{
 }
 
 func TestScripts(t *testing.T) {
-	n := kit.N(250, 400)
+	n := kit.N(250, 2500)
 	if kit.Race() {
 		n = 100
 	}
